@@ -32,8 +32,13 @@ let () =
       let ip = Stdlib.List.map (fun b -> float_of_f32bits (int_of_string b)) (split ',' o.(0)) in
       spec "c09_one_probability_per_action" (Stdlib.List.length ip = n) "";
       spec "c09_probabilities_in_range" (Stdlib.List.for_all (fun p -> p >= 0.0 && p <= 1.0) ip) o.(0);
-      (* magnitudes whose sum overflows binary32 are outside the statement's guard (|R| <= 2^100) *)
-      let guard = Stdlib.List.for_all (fun r -> Float.abs r <= 1.2676506e30) regs in
+      (* judged where the binary32 sum of the floored cumulated regrets does not overflow (C09_f32_sum_overflow_all_zero:
+         beyond that the function returns all zeros, finding D15); the family "every action at f32::MAX" is judged
+         regardless, so that the finding is reported on its own inputs *)
+      let div0 = r32 (float_of_int (max t 1)) in
+      let floored_sum = Stdlib.List.fold_left (fun a r -> a +. Float.max (r /. div0) f32_min_positive) 0.0 regs in
+      let all_max = regs <> [] && Stdlib.List.for_all (fun r -> r = Int32.float_of_bits 0x7f7fffffl) regs in
+      let guard = (Stdlib.List.for_all Float.is_finite regs && floored_sum <= 3.3e38) || all_max in
       if guard then begin
         let s = Stdlib.List.fold_left ( +. ) 0.0 ip in
         spec "c09_probabilities_sum_to_one" (Float.abs (s -. 1.0) <= 1e-5) (Printf.sprintf "sum %.8f" s);
@@ -105,6 +110,18 @@ let () =
     let df = float_of_int (Stdlib.List.length ws - 1) in
     let a = 2.0 /. (9.0 *. df) in
     let bound = df *. ((1.0 -. a +. 6.5 *. sqrt a) ** 3.0) in
-    if chi <= bound then [] else
+    (if chi <= bound then [] else
       [Specfail ("c20_unbiased_across_epochs", Printf.sprintf "chi2 %.1f > %.1f over %.0f epochs" chi bound tc);
        Specfail ("c10_opponent_drawn_with_profile_probability", Printf.sprintf "choice frequencies over %.0f epochs do not follow the profile's weights (chi2 %.1f > %.1f)" tc chi bound)])
+    (* consecutive epochs are independent draws: the number of agreeing neighbours, for pairs starting at an even and at an
+       odd epoch, is binomial with q = sum of squared probabilities (6.5 sigma) *)
+    @ (if Array.length o < 4 then [] else begin
+        let q = Stdlib.List.fold_left (fun a w -> a +. (w /. tw) ** 2.0) 0.0 ws in
+        let n = float_of_string o.(3) in
+        let sd = sqrt (n *. q *. (1.0 -. q)) in
+        Stdlib.List.concat_map (fun (k, what) ->
+            let a = float_of_string o.(k) in
+            if Float.abs (a -. n *. q) <= 6.5 *. sd +. 1.0 then [] else
+              [Specfail ("c20_fresh_draw_every_epoch", Printf.sprintf "the choices at epochs (%s) agree %.0f times out of %.0f; independent draws would agree %.0f +- %.0f times" what a n (n *. q) sd)])
+          [(1, "2t, 2t+1"); (2, "2t+1, 2t+2")]
+      end))
